@@ -14,14 +14,19 @@ def run(v, tier):
     n = 25 if quick else 250
     for i in range(n):
         seed = rng.random()
-        kw = dict(nconstr=rng.choice([1, 2, 3]), naxioms=rng.choice([2, 3, 4]), nrules=rng.choice([0, 1, 2]), nsugar=rng.choice([0, 0, 1, 2]))
+        kw = dict(nconstr=rng.choice([1, 2, 3]), naxioms=rng.choice([2, 3, 4]), nrules=rng.choice([0, 1, 2]), nsugar=rng.choice([0, 0, 1, 2]), nquoted=rng.choice([0, 0, 1, 2]))
         for z in ('none', 'all', 'random', 'dup'):   # the same database and derivation in four compression layouts
             text, lemmas = mmgen.database(random.Random(seed), nlemmas=1, zmode=z, deep=True, **kw)
             reqs.append({'cmd': 'mmtr', 'text': text, 'target': 'goal', 'trace': z == 'all' and i % (3 if quick else 2) == 0})
             meta.append({'db': i, 'layout': z})
     # shipped single-goal benchmarks
+    # (the supported fragment: the benchmarks the repository itself translates - a snapshot under proofs/translated or a
+    # test in test_translate.py; transfer-goal.mm needs mu-patterns over unconstrained metavariables, which the checker
+    # rejects as ill-formed, and is translated nowhere in the repository)
     for f in sorted(glob.glob(os.path.join(pi2v.REPO, 'generation/mm-benchmarks/*-goal.mm'))):
-        if os.path.getsize(f) < (20000 if quick else 200000):
+        name = os.path.basename(f)[:-3]
+        supported = os.path.exists(os.path.join(pi2v.REPO, 'proofs/translated', name + '.ml-proof')) or name == 'transfer-simple-goal'
+        if supported and os.path.getsize(f) < (20000 if quick else 200000):
             reqs.append({'cmd': 'mmtr', 'text': open(f).read(), 'target': 'goal', 'trace': False})
             meta.append({'db': os.path.basename(f), 'layout': 'shipped'})
     res = c15.lem_run(reqs)
